@@ -147,34 +147,29 @@ fn fold(h: u64, rip: u64) -> u64 {
     (h ^ rip).wrapping_mul(0x100000001b3).rotate_left(17)
 }
 
-/// Fork a child that validates `wire` between two SIGSTOPs; single-step it in between.
-/// `record` receives every RIP. Returns the child's exit code (0 = refused as expected).
 /// Tracer mode "builder": the refusal is traced on an authenticator assembled by hand through the (unstable) builder
 /// from the parsed request's fields, calling validate_signature directly.
 static BUILDER_MODE: std::sync::atomic::AtomicBool = std::sync::atomic::AtomicBool::new(false);
 
-unsafe fn trace_one(wire: &WireReq, cfg: &Cfg, prov: &ProvSpec, record: &mut dyn FnMut(u64)) -> i32 {
-    let pid = libc::fork();
-    if pid < 0 {
-        return -1;
-    }
-    if pid == 0 && BUILDER_MODE.load(std::sync::atomic::Ordering::Relaxed) {
+/// What a traced child does: everything is prepared, `start()` is called, the validation runs, `stop()` is called.
+/// Returns the exit code (0 = refused with SignatureDoesNotMatch as expected).
+unsafe fn child_body(wire: &WireReq, cfg: &Cfg, prov: &ProvSpec, start: unsafe fn(), stop: unsafe fn()) -> i32 {
+    if BUILDER_MODE.load(std::sync::atomic::Ordering::Relaxed) {
         use scratchstack_aws_signature::auth::SigV4Authenticator;
         use scratchstack_aws_signature::canonical::CanonicalRequest;
-        libc::ptrace(libc::PTRACE_TRACEME, 0, 0, 0);
         let req = match wire.to_http() {
             Ok(r) => r,
-            Err(_) => libc::_exit(3),
+            Err(_) => return 3,
         };
         let (parts, body) = req.into_parts();
         let cr = match CanonicalRequest::from_request_parts(parts, body, cfg.options()) {
             Ok((cr, _, _)) => cr,
-            Err(_) => libc::_exit(4),
+            Err(_) => return 4,
         };
         let reqs = sut::build_vec_reqs(&cfg.reqs, sut::ReqBuild::VecNew);
         let parsed = match cr.get_authenticator(&reqs) {
             Ok(a) => a,
-            Err(_) => libc::_exit(5),
+            Err(_) => return 5,
         };
         let mut b = SigV4Authenticator::builder();
         b.canonical_request_sha256(parsed.canonical_request_sha256());
@@ -186,37 +181,141 @@ unsafe fn trace_one(wire: &WireReq, cfg: &Cfg, prov: &ProvSpec, record: &mut dyn
         }
         let auth = match b.build() {
             Ok(a) => a,
-            Err(_) => libc::_exit(6),
+            Err(_) => return 6,
         };
         let mut provider = prov.to_provider();
         let now = sut::to_chrono(cfg.now());
         let mm = chrono::Duration::minutes(15);
-        libc::raise(libc::SIGSTOP);
+        start();
         let (r, _) = crate::env::run_bounded(auth.validate_signature(&cfg.region, &cfg.service, now, mm, &mut provider), 16);
-        libc::raise(libc::SIGSTOP);
-        let code = match r {
+        stop();
+        return match r {
             Some(Err(e)) if sut::kind_of(&e) == refmodel::Kind::SignatureDoesNotMatch => 0,
             Some(Ok(_)) => 10,
             _ => 11,
         };
-        libc::_exit(code);
+    }
+    let req = match wire.to_http() {
+        Ok(r) => r,
+        Err(_) => return 3,
+    };
+    let mut provider = prov.to_provider();
+    start();
+    let r = sut::validate_http(req, cfg, &mut provider, 16);
+    stop();
+    match &r {
+        sut::SutResult::Err(e) if e.kind == Some(refmodel::Kind::SignatureDoesNotMatch) => 0,
+        sut::SutResult::Ok(_) => 10,
+        _ => 11,
+    }
+}
+
+unsafe fn mark_stop() {
+    libc::raise(libc::SIGSTOP);
+}
+
+// ---- in-process single-stepping (trap flag): the child steps itself, a SIGTRAP handler sees every instruction
+static mut T_STEPS: u64 = 0;
+static mut T_HASH: u64 = 0;
+static mut T_RECORD: bool = false;
+static mut T_BUF: *mut u64 = std::ptr::null_mut();
+static mut T_LEN: usize = 0;
+static mut T_FIRST: i64 = -1;
+static mut T_RIP_REF: u64 = 0;
+static mut T_RIP_GOT: u64 = 0;
+
+extern "C" fn on_trap(_sig: libc::c_int, _info: *mut libc::siginfo_t, ctx: *mut libc::c_void) {
+    unsafe {
+        let uc = ctx as *mut libc::ucontext_t;
+        let rip = (*uc).uc_mcontext.gregs[libc::REG_RIP as usize] as u64;
+        let i = T_STEPS as usize;
+        if T_RECORD {
+            if i < T_LEN {
+                *T_BUF.add(i) = rip;
+            }
+        } else if T_FIRST < 0 && (i >= T_LEN || *T_BUF.add(i) != rip) {
+            T_FIRST = i as i64;
+            T_RIP_REF = if i < T_LEN { *T_BUF.add(i) } else { 0 };
+            T_RIP_GOT = rip;
+        }
+        T_HASH = fold(T_HASH, rip);
+        T_STEPS += 1;
+    }
+}
+
+#[inline(never)]
+unsafe fn tf_on() {
+    std::arch::asm!("pushfq", "or qword ptr [rsp], 0x100", "popfq");
+}
+
+#[inline(never)]
+unsafe fn tf_off() {
+    std::arch::asm!("pushfq", "and qword ptr [rsp], -257", "popfq");
+}
+
+/// One trace by self-stepping: forks a child that installs the SIGTRAP handler, sets the trap flag around the
+/// validation and reports (exit code, steps, hash, first divergence, rip of reference, rip observed) through a pipe.
+/// `record`: write the RIP sequence into `buf` (capacity `len`, shared memory); otherwise compare with buf[..len].
+unsafe fn trace_one_tf(wire: &WireReq, cfg: &Cfg, prov: &ProvSpec, record: bool, buf: *mut u64, len: usize) -> (i32, u64, u64, i64, u64, u64) {
+    let mut fds = [0 as libc::c_int; 2];
+    if libc::pipe(fds.as_mut_ptr()) != 0 {
+        return (-1, 0, 0, -1, 0, 0);
+    }
+    let pid = libc::fork();
+    if pid < 0 {
+        return (-1, 0, 0, -1, 0, 0);
     }
     if pid == 0 {
-        // child
+        libc::close(fds[0]);
+        let mut sa: libc::sigaction = std::mem::zeroed();
+        sa.sa_sigaction = on_trap as usize;
+        sa.sa_flags = libc::SA_SIGINFO;
+        libc::sigemptyset(&mut sa.sa_mask);
+        libc::sigaction(libc::SIGTRAP, &sa, std::ptr::null_mut());
+        T_STEPS = 0;
+        T_HASH = 0xcbf29ce484222325;
+        T_RECORD = record;
+        T_BUF = buf;
+        T_LEN = len;
+        T_FIRST = -1;
+        let code = child_body(wire, cfg, prov, tf_on, tf_off);
+        if !record && T_FIRST < 0 && (T_STEPS as usize) < len {
+            T_FIRST = T_STEPS as i64; // shorter than the reference
+            T_RIP_REF = *buf.add(T_STEPS as usize);
+        }
+        let out: [u64; 6] = [code as u64, T_STEPS, T_HASH, T_FIRST as u64, T_RIP_REF, T_RIP_GOT];
+        libc::write(fds[1], out.as_ptr() as *const libc::c_void, 48);
+        libc::_exit(0);
+    }
+    libc::close(fds[1]);
+    let mut out = [0u64; 6];
+    let mut got = 0usize;
+    while got < 48 {
+        let n = libc::read(fds[0], (out.as_mut_ptr() as *mut u8).add(got) as *mut libc::c_void, 48 - got);
+        if n <= 0 {
+            break;
+        }
+        got += n as usize;
+    }
+    libc::close(fds[0]);
+    let mut status: libc::c_int = 0;
+    libc::waitpid(pid, &mut status, 0);
+    if got < 48 {
+        return (-9, 0, 0, -1, 0, 0); // the child died inside the traced region
+    }
+    (out[0] as i32, out[1], out[2], out[3] as i64, out[4], out[5])
+}
+
+/// Fork a child that validates `wire` between two SIGSTOPs; single-step it in between (ptrace; kept as a fallback,
+/// selected with VH_C07_PTRACE=1).
+unsafe fn trace_one(wire: &WireReq, cfg: &Cfg, prov: &ProvSpec, record: &mut dyn FnMut(u64)) -> i32 {
+    let pid = libc::fork();
+    if pid < 0 {
+        return -1;
+    }
+    if pid == 0 {
         libc::ptrace(libc::PTRACE_TRACEME, 0, 0, 0);
-        let req = match wire.to_http() {
-            Ok(r) => r,
-            Err(_) => libc::_exit(3),
-        };
-        let mut provider = prov.to_provider();
-        libc::raise(libc::SIGSTOP);
-        let r = sut::validate_http(req, cfg, &mut provider, 16);
-        libc::raise(libc::SIGSTOP);
-        let code = match &r {
-            sut::SutResult::Err(e) if e.kind == Some(refmodel::Kind::SignatureDoesNotMatch) => 0,
-            sut::SutResult::Ok(_) => 10,
-            _ => 11,
-        };
+        let code = child_body(wire, cfg, prov, mark_stop, mark_stop);
         libc::_exit(code);
     }
     let mut status: libc::c_int = 0;
@@ -310,7 +409,40 @@ pub fn tracer_main(args: &[String]) -> i32 {
     let mut reference_upper: Vec<u64> = Vec::with_capacity(400_000);
     let mut results: Vec<TraceResult> = Vec::with_capacity(wires.len());
     let mut codes: Vec<i32> = Vec::with_capacity(wires.len());
+    let use_ptrace = std::env::var("VH_C07_PTRACE").map(|v| v == "1").unwrap_or(false);
+    if !use_ptrace {
+        // self-stepping children; the reference RIP sequences live in shared memory so that later children compare
+        // against them without any copying
+        const CAP: usize = 600_000;
+        let shm = |n: usize| unsafe {
+            libc::mmap(std::ptr::null_mut(), n * 8, libc::PROT_READ | libc::PROT_WRITE, libc::MAP_SHARED | libc::MAP_ANONYMOUS, -1, 0) as *mut u64
+        };
+        let (buf_lower, buf_upper) = (shm(CAP), shm(CAP));
+        let (mut len_lower, mut len_upper) = (0usize, 0usize);
+        for (n, (v, w)) in wires.iter().enumerate() {
+            let (code, steps, hash, first, rip_ref, rip_got) = unsafe {
+                if n == 0 {
+                    let r = trace_one_tf(w, &cfg, &prov, true, buf_lower, CAP);
+                    len_lower = (r.1 as usize).min(CAP);
+                    r
+                } else if n == 2 {
+                    let r = trace_one_tf(w, &cfg, &prov, true, buf_upper, CAP);
+                    len_upper = (r.1 as usize).min(CAP);
+                    r
+                } else if *v >= 128 {
+                    trace_one_tf(w, &cfg, &prov, false, buf_upper, len_upper)
+                } else {
+                    trace_one_tf(w, &cfg, &prov, false, buf_lower, len_lower)
+                }
+            };
+            codes.push(code);
+            results.push(TraceResult { variant: *v, steps, hash, first_divergence: first, rip_ref, rip_got, refused: code == 0 });
+        }
+    }
     for (n, (v, w)) in wires.iter().enumerate() {
+        if !use_ptrace {
+            break;
+        }
         let mut steps = 0u64;
         let mut hash = 0xcbf29ce484222325u64;
         let mut first_div: i64 = -1;
@@ -364,7 +496,7 @@ pub fn tracer_main(args: &[String]) -> i32 {
     for (n, r) in results.iter().enumerate() {
         println!(
             "{}",
-            json!({"request": name, "secret": si, "logger": if debug_logger { "debug" } else { "off" }, "entry": if builder_mode { "validate_signature on a builder-made authenticator" } else { "sigv4_validate_request" }, "variant": r.variant, "role": if n == 0 { "reference" } else if n == 1 { "reference-repeat" } else if n == 2 { "reference-upper" } else { "variant" },
+            json!({"request": name, "secret": si, "stepping": if use_ptrace { "ptrace" } else { "trap flag" }, "logger": if debug_logger { "debug" } else { "off" }, "entry": if builder_mode { "validate_signature on a builder-made authenticator" } else { "sigv4_validate_request" }, "variant": r.variant, "role": if n == 0 { "reference" } else if n == 1 { "reference-repeat" } else if n == 2 { "reference-upper" } else { "variant" },
                    "steps": r.steps, "hash": format!("{:016x}", r.hash), "first_divergence": r.first_divergence,
                    "rip_reference_offset": format!("{:#x}", r.rip_ref.wrapping_sub(base)), "rip_observed_offset": format!("{:#x}", r.rip_got.wrapping_sub(base)),
                    "refused": r.refused, "child_code": codes[n], "signature": variant(&sig, r.variant)})
@@ -413,7 +545,7 @@ pub fn run(ctx: &Ctx) -> Report {
     let workers = 16usize;
     // leave worker slots for the Debug-logger jobs (2) and the signature-twice shapes (3) so that everything runs
     // in one wave
-    let per_group = ((workers - 6) / groups.len()).max(1);
+    let per_group = if thorough { ((workers - 6) / groups.len()).max(1) } else { 10 };
     let mut jobs: Vec<(usize, usize, Vec<usize>, u8)> = Vec::new(); // last: 0 plain, 1 Debug logger, 2 builder-made authenticator
     for (si, ri) in &groups {
         let chunk = (variants.len() + per_group - 1) / per_group;
@@ -424,7 +556,7 @@ pub fn run(ctx: &Ctx) -> Report {
     // the same refusals with a logger installed at Debug level (an embedding application's usual setting):
     // every 4th position in quick, all in thorough, lower-case family
     {
-        let dbg_variants: Vec<usize> = if thorough { (0..64).collect() } else { (0..64).step_by(4).collect() };
+        let dbg_variants: Vec<usize> = if thorough { (0..64).collect() } else { (0..64).step_by(8).collect() };
         let (si, ri) = groups[0];
         for c in dbg_variants.chunks(if thorough { 4 } else { 8 }) {
             jobs.push((si, ri, c.to_vec(), 1));
@@ -432,7 +564,7 @@ pub fn run(ctx: &Ctx) -> Report {
     }
     // the presented signature occurring twice: every 8th position in quick, all in thorough (both secrets)
     {
-        let vs: Vec<usize> = if thorough { (0..128).collect() } else { (0..64).step_by(8).chain([63]).collect() };
+        let vs: Vec<usize> = if thorough { (0..128).collect() } else { vec![0, 13, 26, 39, 52, 63] };
         for ri in twice_shapes {
             for si in if thorough { vec![0usize, 1] } else { vec![0usize] } {
                 for c in vs.chunks(if thorough { 16 } else { 9 }) {
@@ -444,7 +576,7 @@ pub fn run(ctx: &Ctx) -> Report {
     // the refusal on an authenticator assembled through the builder (validate_signature called directly): every 8th
     // position in quick, all in thorough
     {
-        let vs: Vec<usize> = if thorough { (0..128).collect() } else { (0..64).step_by(8).chain([63]).collect() };
+        let vs: Vec<usize> = if thorough { (0..128).collect() } else { vec![0, 13, 26, 39, 52, 63] };
         for (si, ri) in if thorough { vec![(0usize, 0usize), (1, 2)] } else { vec![(0usize, 0usize)] } {
             for c in vs.chunks(if thorough { 16 } else { 9 }) {
                 jobs.push((si, ri, c.to_vec(), 2));
@@ -535,7 +667,7 @@ pub fn run(ctx: &Ctx) -> Report {
     Report {
         stats: st,
         rule: format!(
-            "for each of {} (request, key) groups ({}): wrong signatures of the correct length — only position p wrong for every p in 0..63{} — substituted within the character's class (digit->digit, letter->letter), in lower case and (every 8th position in quick, all in thorough) with the letters in upper case, each family compared with its own all-wrong reference; the lower-case family is traced again with a logger installed at Debug level that formats every record; three further request shapes carry the presented signature twice (a repeated X-Amz-Signature parameter, a repeated Signature= field, a stray X-Amz-Signature query parameter next to header authentication; every 8th position in quick, all positions and both secrets in thorough); the refusal is also traced on an authenticator assembled by hand through the unstable builder with validate_signature called directly; each is validated in a forked child of a warmed-up tracer (the genuine request accepted once, then 14 wrong signatures refused for the same access key) of a single-threaded tracer (ship-profile build, logger off unless stated, byte-wise early-exit memcmp/bcmp linked in) and single-stepped under ptrace from just before to just after sigv4_validate_request; every trace must have the same length and the same RIP-sequence hash as the group's reference trace (all 64 characters wrong), which is itself traced twice to prove the apparatus deterministic. states = distinct (group, trace hash); transitions = machine instructions stepped",
+            "for each of {} (request, key) groups ({}): wrong signatures of the correct length — only position p wrong for every p in 0..63{} — substituted within the character's class (digit->digit, letter->letter), in lower case and (every 8th position in quick, all in thorough) with the letters in upper case, each family compared with its own all-wrong reference; the lower-case family is traced again with a logger installed at Debug level that formats every record; three further request shapes carry the presented signature twice (a repeated X-Amz-Signature parameter, a repeated Signature= field, a stray X-Amz-Signature query parameter next to header authentication; positions 0, 13, 26, 39, 52, 63 in quick, all positions and both secrets in thorough); the refusal is also traced on an authenticator assembled by hand through the unstable builder with validate_signature called directly; each is validated in a forked child of a warmed-up tracer (the genuine request accepted once, then 14 wrong signatures refused for the same access key) of a single-threaded tracer (ship-profile build, logger off unless stated, byte-wise early-exit memcmp/bcmp linked in) and single-stepped (the child sets the processor's trap flag around the call and a SIGTRAP handler sees every instruction; a ptrace stepper is kept as a fallback, VH_C07_PTRACE=1) from just before to just after sigv4_validate_request; every trace must have the same length and the same RIP-sequence hash as the group's reference trace (all 64 characters wrong), which is itself traced twice to prove the apparatus deterministic. states = distinct (group, trace hash); transitions = machine instructions stepped",
             groups.len(),
             if thorough { "GET vanilla, POST body, query carrier x 2 secrets" } else { "GET vanilla, first secret" },
             if thorough { ", and positions p..63 all wrong for every p" } else { "" }
